@@ -5,7 +5,7 @@
      scr t        : (tw + bw + lw + #tabs + widest row) * (th + max (bh, #rows)) + 1   — the screen measure incl. scrollback
      Inv09 t      : the C09 invariant (every state reachable without a text-area resize: Props/C09.v) *)
 From Coq Require Import ZArith NArith List Bool Lia.
-From IE Require Import Model.TermCore Model.AnsiTok Model.Cost Model.Alloc Proofs.TermProofs Proofs.CostProofs Proofs.AllocProofs Proofs.TicksProofs Run.RunC03.
+From IE Require Import Model.TermCore Model.AnsiTok Model.Cost Model.Alloc Proofs.TermProofs Proofs.CostProofs Proofs.AllocProofs Proofs.TicksProofs Proofs.MacroProofs Run.RunC03.
 From IE Require Model.Sixel Model.Font.
 Import ListNotations.
 Local Open Scope Z_scope.
@@ -142,6 +142,26 @@ Theorem dollar_arms_only : forall inv t p ch, st p = SEndCsi 36 -> fst (csi_doll
 Proof. exact dollar_arms_only_l. Qed.
 Theorem rqcra_arm_only : forall inv t p, st p = SEndCsi 42 -> fst (rqcra_c t p) = astep_gen inv (mkA t p) 121.
 Proof. exact rqcra_arm_only_l. Qed.
+
+(* ---- (c) hex-macro repeat groups and macro replay: conditional bounds ------------------------------------------------------------------------------------------------ *)
+(* parse_hex_macro_sequence: characters read + characters appended, and the length of the macro, are at most (1 + largest repeat count) x length;
+   hex_reps s HFirst false 0 is the largest repeat count of a group opened in s: the known class `hexmacro-repeat` is exactly a large value of it *)
+Theorem hexmacro_bound : forall s,
+  snd (hex_macro_t s HFirst false [] 0 [] 0) <= zlen s * (1 + hex_reps s HFirst false 0) /\
+  (forall mac, fst (hex_macro_t s HFirst false [] 0 [] 0) = Some mac -> zlen mac <= zlen s * (1 + hex_reps s HFirst false 0)).
+Proof. exact hexmacro_bound_l. Qed.
+Theorem hexmacro_bound_cond : forall s B, ~ KnownC03_hexrep s B -> snd (hex_macro_t s HFirst false [] 0 [] 0) <= zlen s * (1 + B).
+Proof. exact hexmacro_bound_known_l. Qed.
+Theorem hexmacro_linear : forall s, hex_reps s HFirst false 0 = 0 -> snd (hex_macro_t s HFirst false [] 0 [] 0) <= zlen s.
+Proof. exact hexmacro_linear_l. Qed.
+(* invoke_macro_by_id: when the nesting is shallower than the budget (macro_chars = Some n; recursion is the known class: macro_recursion_refuted),
+   the characters replayed are at most B (1 + c + ... + c^(fuel-1)) for bodies of at most B characters holding at most c invocations each *)
+Theorem macro_replay_bound : forall fuel ms id B c n, 0 <= B -> 0 <= c -> macros_ok ms B c -> macro_chars fuel ms id = Some n -> 0 <= n <= B * geom c fuel.
+Proof. exact macro_replay_bound_l. Qed.
+Theorem macro_invokes_half : forall body, 2 * zlen (find_invokes body) <= zlen body.
+Proof. exact find_invokes_half. Qed.
+Theorem macro_table_ok : forall ms, macros_ok ms (macros_maxlen ms) (macros_maxinv ms).
+Proof. exact macros_max_ok. Qed.
 
 (* ---- non-vacuity: the ledger inputs through the model ---------------------------------------------------------------------------------------- *)
 (* CSI 2147483647 S on 80x25: 12 parameter characters + 25 scrolls, not 2^31 *)
